@@ -210,7 +210,7 @@ KIND_N['cls_t'] = 3
 KIND_N['out3'] = 3
 OUT3 = [0, 7, 10]      # succeeds / ValueError / CustomExc
 HANDLER_CALLS = []
-BOOL_KINDS = ('bool', 'lbool', 'maybe', 'llist')
+BOOL_KINDS = ('bool', 'lbool', 'maybe', 'llist', 'lconst')
 
 
 def _mutate(name):
@@ -444,6 +444,9 @@ def bind(ints, bools):
             continue
         if kind == 'lbool':          # leaf value: symbolic bool
             vals[name] = bools[slot]
+            continue
+        if kind == 'lconst':         # leaf value: the constant given in the slot field
+            vals[name] = slot
             continue
         if kind == 'llist':          # leaf value: a list (for repeat sites)
             vals[name] = [7, 8]
